@@ -353,14 +353,17 @@ impl Database {
     /// Executes a SQL query and returns the result.
     pub fn execute(&self, sql: &str) -> DatabaseResult<QueryResult> {
         let sql = sql.to_string();
-        let (tx_ctx, logger) = Self::begin_transaction(
+        // The transaction begins inside the task, i.e. under the checkpoint gate: a VACUUM
+        // running in between would otherwise abort it before its statement has started.
+        let (coordinator, pager, catalog) = (
             self.coordinator.clone(),
             self.pager.clone(),
             self.catalog.clone(),
-        )?;
-
-        let child = tx_ctx.create_child()?;
+        );
         let result = self.task_runner.run_with_result(move |_ctx| {
+            let (tx_ctx, logger) =
+                Self::begin_transaction(coordinator, pager, catalog).map_err(box_err)?;
+            let child = tx_ctx.create_child().map_err(box_err)?;
             let runner = QueryRunner::new(child, logger.clone());
             let result_guard = runner.prepare_and_run(&sql).map_err(box_err)?;
 
@@ -378,14 +381,17 @@ impl Database {
     /// Executes a SQL query and returns the result.
     pub fn explain(&self, sql: &str) -> DatabaseResult<String> {
         let sql = sql.to_string();
-        let (tx_ctx, logger) = Self::begin_transaction(
+        // The transaction begins inside the task, i.e. under the checkpoint gate: a VACUUM
+        // running in between would otherwise abort it before its statement has started.
+        let (coordinator, pager, catalog) = (
             self.coordinator.clone(),
             self.pager.clone(),
             self.catalog.clone(),
-        )?;
-
-        let child = tx_ctx.create_child()?;
+        );
         let result = self.task_runner.run_with_result(move |_ctx| {
+            let (tx_ctx, logger) =
+                Self::begin_transaction(coordinator, pager, catalog).map_err(box_err)?;
+            let child = tx_ctx.create_child().map_err(box_err)?;
             let runner = QueryRunner::new(child, logger.clone());
             let result = runner.prepare_and_explain(&sql).map_err(box_err)?;
 
@@ -402,15 +408,16 @@ impl Database {
     /// Executes multiple SQL statements in a single transaction.
     pub fn execute_batch(&self, statements: &[&str]) -> DatabaseResult<Vec<QueryResult>> {
         let statements: Vec<String> = statements.iter().map(|s| s.to_string()).collect();
-        // Begin transaction
-        let (tx_ctx, logger) = Self::begin_transaction(
+        // Begin the transaction inside the task (see `execute`).
+        let (coordinator, pager, catalog) = (
             self.coordinator.clone(),
             self.pager.clone(),
             self.catalog.clone(),
-        )?;
-
-        let child = tx_ctx.create_child()?;
+        );
         let results = self.task_runner.run_with_result(move |_ctx| {
+            let (tx_ctx, logger) =
+                Self::begin_transaction(coordinator, pager, catalog).map_err(box_err)?;
+            let child = tx_ctx.create_child().map_err(box_err)?;
             // Use BatchQueryRunner for atomic execution
             let runner = MultiQueryRunner::new(child, logger.clone());
 
